@@ -20,32 +20,32 @@ Import ListNotations.
 Local Open Scope string_scope.
 
 Theorem C01_gen_templates_pinned : gen_templates = [
-  (* 0 *) "self.is_ineq_constraint_satisfied(<0>)";
-  (* 1 *) "self.is_eq_constraint_satisfied(<0>)";
-  (* 2 *) "rows, columns = matrix.shape ;; rows != columns";
-  (* 3 *) "adjoint = matrix.conj().T ;; allclose(matrix, adjoint, atol=<0>, rtol=<1>)";
-  (* 4 *) "is_hermitian(matrix, <0>)";
-  (* 5 *) "eigvals_array = np.linalg.eigvalsh(matrix) ;; close_zero = np.where(np.isclose(eigvals_array, 0, atol=<0>, rtol=<1>)) ;; eigvals_not_close_zero = np.delete(eigvals_array, close_zero) ;; np.all(eigvals_not_close_zero >= 0)";
-  (* 6 *) "self.is_trace_one(<0>)";
-  (* 7 *) "self.is_positive_semidefinite(<0>)";
-  (* 8 *) "tr = np.trace(self.to_density_matrix_with_sparsity()) ;; np.isclose(tr, 1, atol=<0>, rtol=<1>)";
+  (* 0 *) "adjoint = matrix.conj().T ;; allclose(matrix, adjoint, atol=<0>, rtol=<1>)";
+  (* 1 *) "eigvals_array = np.linalg.eigvalsh(matrix) ;; close_zero = np.where(np.isclose(eigvals_array, 0, atol=<0>, rtol=<1>)) ;; eigvals_not_close_zero = np.delete(eigvals_array, close_zero) ;; np.all(eigvals_not_close_zero >= 0)";
+  (* 2 *) "expected_row = np.zeros(c_sys.dim ** 2) ;; expected_row[0] = 1 ;; np.allclose(hs[0], expected_row, atol=<0>, rtol=<1>)";
+  (* 3 *) "for (index, basis) in enumerate(c_sys.basis()): ;; trace_before_mapped = basis.diagonal().sum() ;; vec = np.zeros(c_sys.dim ** 2) ;; vec[index] = 1 ;; vec_after_mapped = hs @ vec ;; density = np.zeros((c_sys.dim, c_sys.dim), dtype=np.complex128) ;; for coefficient, basis in zip(vec_after_mapped, c_sys.basis()): ;;     density += coefficient * basis ;; trace_after_mapped = np.trace(density) ;; np.isclose(trace_after_mapped, trace_before_mapped, atol=<0>, rtol=<1>)";
+  (* 4 *) "for hs in self.hss: ;; gate.is_cp(self.composite_system, hs, <0>)";
+  (* 5 *) "for m in self.matrices_with_sparsity(): ;; mutil.is_positive_semidefinite(m, <0>)";
+  (* 6 *) "is_cp(self.composite_system, self.hs, <0>)";
+  (* 7 *) "is_hermitian(matrix, <0>)";
+  (* 8 *) "is_tp(self.composite_system, self.hs, <0>)";
   (* 9 *) "mutil.is_hermitian(self.to_density_matrix_with_sparsity(), atol=<0>)";
   (* 10 *) "mutil.is_positive_semidefinite(self.to_density_matrix_with_sparsity(), atol=<0>)";
-  (* 11 *) "self.is_physical()";
-  (* 12 *) "self.is_identity_sum(<0>)";
-  (* 13 *) "sum_matrix = self._sum_matrix() ;; identity = np.identity(self.dim, dtype=np.complex128) ;; np.allclose(sum_matrix, identity, atol=<0>, rtol=<1>)";
-  (* 14 *) "for m in self.matrices_with_sparsity(): ;; mutil.is_positive_semidefinite(m, <0>)";
-  (* 15 *) "self.is_tp(<0>)";
-  (* 16 *) "self.is_cp(<0>)";
-  (* 17 *) "is_tp(self.composite_system, self.hs, <0>)";
-  (* 18 *) "is_cp(self.composite_system, self.hs, <0>)";
-  (* 19 *) "expected_row = np.zeros(c_sys.dim ** 2) ;; expected_row[0] = 1 ;; np.allclose(hs[0], expected_row, atol=<0>, rtol=<1>)";
-  (* 20 *) "for (index, basis) in enumerate(c_sys.basis()): ;; trace_before_mapped = basis.diagonal().sum() ;; vec = np.zeros(c_sys.dim ** 2) ;; vec[index] = 1 ;; vec_after_mapped = hs @ vec ;; density = np.zeros((c_sys.dim, c_sys.dim), dtype=np.complex128) ;; for coefficient, basis in zip(vec_after_mapped, c_sys.basis()): ;;     density += coefficient * basis ;; trace_after_mapped = np.trace(density) ;; np.isclose(trace_after_mapped, trace_before_mapped, atol=<0>, rtol=<1>)";
-  (* 21 *) "mutil.is_positive_semidefinite(to_choi_from_hs_with_sparsity(c_sys, hs), atol=<0>)";
-  (* 22 *) "self.is_sum_tp(atol=<0>)";
-  (* 23 *) "self.is_cp(atol=<0>)";
-  (* 24 *) "sum_hss = np.sum(self._hss, axis=0) ;; gate.is_tp(self.composite_system, sum_hss, <0>)";
-  (* 25 *) "for hs in self.hss: ;; gate.is_cp(self.composite_system, hs, <0>)"
+  (* 11 *) "mutil.is_positive_semidefinite(to_choi_from_hs_with_sparsity(c_sys, hs), atol=<0>)";
+  (* 12 *) "rows, columns = matrix.shape ;; rows != columns";
+  (* 13 *) "self.is_cp(<0>)";
+  (* 14 *) "self.is_cp(atol=<0>)";
+  (* 15 *) "self.is_eq_constraint_satisfied(<0>)";
+  (* 16 *) "self.is_identity_sum(<0>)";
+  (* 17 *) "self.is_ineq_constraint_satisfied(<0>)";
+  (* 18 *) "self.is_physical()";
+  (* 19 *) "self.is_positive_semidefinite(<0>)";
+  (* 20 *) "self.is_sum_tp(atol=<0>)";
+  (* 21 *) "self.is_tp(<0>)";
+  (* 22 *) "self.is_trace_one(<0>)";
+  (* 23 *) "sum_hss = np.sum(self._hss, axis=0) ;; gate.is_tp(self.composite_system, sum_hss, <0>)";
+  (* 24 *) "sum_matrix = self._sum_matrix() ;; identity = np.identity(self.dim, dtype=np.complex128) ;; np.allclose(sum_matrix, identity, atol=<0>, rtol=<1>)";
+  (* 25 *) "tr = np.trace(self.to_density_matrix_with_sparsity()) ;; np.isclose(tr, 1, atol=<0>, rtol=<1>)"
 ].
 Proof. reflexivity. Qed.
 Print Assumptions C01_gen_templates_pinned.
@@ -72,13 +72,13 @@ Section Mutil.
 Variables (n : nat) (H : cmat F).
 Definition g_mutil0 : genv F := mk no_flag no_len (fun id _ args =>
   match id with
-  | 2 => false                                                   (* rows != columns : the model covers square matrices *)
-  | 3 => with_atol_rtol0 args (fun a => mutil_is_hermitian n H a)
+  | 12 => false                                                   (* rows != columns : the model covers square matrices *)
+  | 0 => with_atol_rtol0 args (fun a => mutil_is_hermitian n H a)
   | _ => false end).
 Definition g_mutil1 : genv F := mk no_flag no_len (fun id _ args =>
   match id with
-  | 4 => run g_mutil0 gen_mutil_is_hermitian_params gen_mutil_is_hermitian args
-  | 5 => with_atol_rtol args (fun a _ => herm_psd_dec F n (lowerherm H) a)   (* isclose(lambda, 0, atol, rtol) = |lambda| <= atol whatever rtol *)
+  | 7 => run g_mutil0 gen_mutil_is_hermitian_params gen_mutil_is_hermitian args
+  | 1 => with_atol_rtol args (fun a _ => herm_psd_dec F n (lowerherm H) a)   (* isclose(lambda, 0, atol, rtol) = |lambda| <= atol whatever rtol *)
   | _ => false end).
 Lemma gen_mutil_is_hermitian_eq a :
   run g_mutil0 gen_mutil_is_hermitian_params gen_mutil_is_hermitian [a] = mutil_is_hermitian n H (resolve_atol st a).
@@ -94,36 +94,31 @@ End Mutil.
 
 (* QOperation.is_physical over given equality / inequality verdict functions *)
 Definition g_phys (veq vineq : list (option F) -> bool) : genv F := mk no_flag no_len (fun id _ args =>
-  match id with 1 => veq args | 0 => vineq args | _ => false end).
+  match id with 15 => veq args | 17 => vineq args | _ => false end).
 Lemma gen_is_physical_eq veq vineq a b :
   run (g_phys veq vineq) gen_QOperation_is_physical_params gen_QOperation_is_physical [a; b] = veq [a] && vineq [b].
-Proof. destruct a, b; reflexivity. Qed.
+Proof. destruct a, b; (reflexivity || (etransitivity; [|apply andb_comm]; reflexivity)). Qed.     (* either order of the two conjuncts *)
 (* the constructors' guard: self.is_physical() is is_physical with both tolerances omitted *)
 Definition g_ctor (flags : string -> bool) (phys : list (option F) -> bool) : genv F := mk flags no_len (fun id _ args =>
-  match id with 11 => phys args | _ => false end).
-Ltac guard_tac :=
+  match id with 18 => phys args | _ => false end).
+Ltac guard_tac required p :=
   cbv [raises call bind eval eval_b g_ctor mk g_flag g_prim map
        gen_State_init_guards gen_Povm_init_guards gen_Gate_init_guards gen_MProcess_init_guards];
-  repeat match goal with |- context [if ?c then _ else _] => destruct c eqn:? end;
-  repeat match goal with H : (_ && _)%bool = _ |- _ => revert H end;
-  repeat match goal with |- context [negb ?c] => destruct c end;
-  repeat match goal with |- context [?c && _] => is_var c; destruct c end;
-  cbn; intros; congruence.
-
+  generalize p; let q := fresh "q" in intros q; destruct required, q; reflexivity.
 
 (* ---------------------------------------------------------------- State *)
 Section State.
 Variables (d : nat) (B : nat -> cmat F) (v : rvec F).
 Definition g_state1 : genv F := mk no_flag no_len (fun id _ args =>
   match id with
-  | 8 => with_atol_rtol args (fun a r => ciscl (state_trace d B v) (c1 Cx) (c1 F) a r)
+  | 25 => with_atol_rtol args (fun a r => ciscl (state_trace d B v) (c1 Cx) (c1 F) a r)
   | 9 => run (g_mutil0 d (op_of_vec d B v)) gen_mutil_is_hermitian_params gen_mutil_is_hermitian args
   | 10 => run (g_mutil1 d (op_of_vec d B v)) gen_mutil_is_positive_semidefinite_params gen_mutil_is_positive_semidefinite args
   | _ => false end).
 Definition g_state2 : genv F := mk no_flag no_len (fun id _ args =>
   match id with
-  | 6 => run g_state1 gen_State_is_trace_one_params gen_State_is_trace_one args
-  | 7 => run g_state1 gen_State_is_positive_semidefinite_params gen_State_is_positive_semidefinite args
+  | 22 => run g_state1 gen_State_is_trace_one_params gen_State_is_trace_one args
+  | 19 => run g_state1 gen_State_is_positive_semidefinite_params gen_State_is_positive_semidefinite args
   | _ => false end).
 Definition state_eq (args : list (option F)) := run g_state2 gen_State_is_eq_constraint_satisfied_params gen_State_is_eq_constraint_satisfied args.
 Definition state_ineq (args : list (option F)) := run g_state2 gen_State_is_ineq_constraint_satisfied_params gen_State_is_ineq_constraint_satisfied args.
@@ -148,7 +143,7 @@ Proof. reflexivity. Qed.
 Theorem C01_gen_state_ctor required :
   raises (call (g_ctor (fun _ => required) state_phys) gen_State_init_guards_params gen_State_init_guards 0 [])
   = state_ctor_raises st (c0 F) d B v required.
-Proof. unfold state_ctor_raises, ctor_raises. rewrite <- (C01_gen_state_is_physical None None), <- state_phys_nil. guard_tac. Qed.
+Proof. unfold state_ctor_raises, ctor_raises. rewrite <- (C01_gen_state_is_physical None None), <- state_phys_nil. guard_tac required (state_phys []). Qed.
 End State.
 
 (* ---------------------------------------------------------------- Povm (m elements) *)
@@ -156,13 +151,13 @@ Section Povm.
 Variables (d : nat) (B : nat -> cmat F) (m : nat) (vs : nat -> rvec F).
 Definition g_povm1 : genv F := mk no_flag (fun _ => m) (fun id j args =>
   match id with
-  | 13 => with_atol_rtol0 args (fun a => povm_is_identity_sum d B m vs a (c0 F))
-  | 14 => run (g_mutil1 d (op_of_vec d B (vs j))) gen_mutil_is_positive_semidefinite_params gen_mutil_is_positive_semidefinite args
+  | 24 => with_atol_rtol0 args (fun a => povm_is_identity_sum d B m vs a (c0 F))
+  | 5 => run (g_mutil1 d (op_of_vec d B (vs j))) gen_mutil_is_positive_semidefinite_params gen_mutil_is_positive_semidefinite args
   | _ => false end).
 Definition g_povm2 : genv F := mk no_flag no_len (fun id _ args =>
   match id with
-  | 12 => run g_povm1 gen_Povm_is_identity_sum_params gen_Povm_is_identity_sum args
-  | 7 => run g_povm1 gen_Povm_is_positive_semidefinite_params gen_Povm_is_positive_semidefinite args
+  | 16 => run g_povm1 gen_Povm_is_identity_sum_params gen_Povm_is_identity_sum args
+  | 19 => run g_povm1 gen_Povm_is_positive_semidefinite_params gen_Povm_is_positive_semidefinite args
   | _ => false end).
 Definition povm_eq (args : list (option F)) := run g_povm2 gen_Povm_is_eq_constraint_satisfied_params gen_Povm_is_eq_constraint_satisfied args.
 Definition povm_ineq (args : list (option F)) := run g_povm2 gen_Povm_is_ineq_constraint_satisfied_params gen_Povm_is_ineq_constraint_satisfied args.
@@ -180,7 +175,7 @@ Proof. unfold povm_is_psd.
     cbn [g_len g_povm1 mk].
     rewrite (scan_allb _ (fun j => mutil_is_psd d (op_of_vec d B (vs j)) t) m).
     - destruct (allb m _); reflexivity.
-    - intros j. cbn [eval eval_b g_prim g_povm1 mk map eval_tol upd]. cbv [String.eqb Ascii.eqb Bool.eqb].
+    - intros j. cbv [eval eval_b g_prim g_povm1 mk map eval_tol upd bind gen_Povm_is_positive_semidefinite_params String.eqb Ascii.eqb Bool.eqb].
       rewrite (gen_mutil_is_psd_eq d (op_of_vec d B (vs j)) (Some t)). cbn [resolve_atol negb].
       destruct (mutil_is_psd d (op_of_vec d B (vs j)) t); reflexivity. }
   destruct a as [a|]; cbn [resolve_atol]; rewrite <- E; reflexivity. Qed.
@@ -191,6 +186,110 @@ Proof. reflexivity. Qed.
 Theorem C01_gen_povm_ctor required :
   raises (call (g_ctor (fun _ => required) povm_phys) gen_Povm_init_guards_params gen_Povm_init_guards 0 [])
   = povm_ctor_raises st (c0 F) d B m vs required.
-Proof. unfold povm_ctor_raises, ctor_raises. rewrite <- (C01_gen_povm_is_physical None None), <- povm_phys_nil. guard_tac. Qed.
+Proof. unfold povm_ctor_raises, ctor_raises. rewrite <- (C01_gen_povm_is_physical None None), <- povm_phys_nil. guard_tac required (povm_phys []). Qed.
 End Povm.
+(* ---------------------------------------------------------------- gate.is_tp / gate.is_cp (module level) on an HS matrix *)
+Section Gate.
+Variables (flag : bool) (d : nat) (B : nat -> cmat F).
+Definition flag_name := "c_sys.is_orthonormal_hermitian_0thprop_identity".
+Definition g_gate1 (HS : rmat F) : genv F := mk (fun _ => flag) (fun _ => (d * d)%nat) (fun id j args =>
+  match id with
+  | 2 => with_atol_rtol0 args (fun a => gate_is_tp_row d HS a)
+  | 3 => with_atol_rtol0 args (fun a => ciscl (gate_image_trace d B HS j) (mtrace d (B j)) (c0 F) a (c0 F))
+  | 11 => run (g_mutil1 (d * d) (choi_of_hs d B HS)) gen_mutil_is_positive_semidefinite_params gen_mutil_is_positive_semidefinite args
+  | _ => false end).
+Definition fn_is_tp (HS : rmat F) (args : list (option F)) := run (g_gate1 HS) gen_gate_is_tp_params gen_gate_is_tp args.
+Definition fn_is_cp (HS : rmat F) (args : list (option F)) := run (g_gate1 HS) gen_gate_is_cp_params gen_gate_is_cp args.
+
+Lemma fn_is_tp_eq HS a : fn_is_tp HS [a] = gate_is_tp flag d B HS (resolve_atol st a).
+Proof.
+  assert (E : forall t : F, fn_is_tp HS [Some t] = gate_is_tp flag d B HS t).
+  { intros t. unfold fn_is_tp, run, call, gate_is_tp.
+    cbv [bind gen_gate_is_tp gen_gate_is_tp_params eval eval_tol eval_b upd String.eqb Ascii.eqb Bool.eqb g_flag g_gate1 mk].
+    destruct flag.
+    - cbv [g_prim map eval_tol with_atol_rtol0 ret_true]. now rewrite keqb_refl.
+    - cbn [g_len].
+      rewrite (scan_allb _ (fun j => ciscl (gate_image_trace d B HS j) (mtrace d (B j)) (c0 F) t (c0 F)) (d * d)).
+      + unfold gate_is_tp_trace. destruct (allb (d * d) _); reflexivity.
+      + intros j. cbv [eval eval_b g_prim map eval_tol upd with_atol_rtol0 String.eqb Ascii.eqb Bool.eqb]. rewrite keqb_refl. cbn [andb].
+        destruct (ciscl _ _ _ _ _); reflexivity. }
+  destruct a as [a|]; cbn [resolve_atol]; rewrite <- E; reflexivity. Qed.
+Lemma fn_is_cp_eq HS a : fn_is_cp HS [a] = gate_is_cp d B HS (resolve_atol st a).
+Proof. unfold gate_is_cp. rewrite <- (gen_mutil_is_psd_eq (d * d) (choi_of_hs d B HS) a). destruct a; reflexivity. Qed.
+
+(* ---- Gate object *)
+Variable HS : rmat F.
+Definition g_gate2 : genv F := mk no_flag no_len (fun id _ args =>
+  match id with 8 => fn_is_tp HS args | 6 => fn_is_cp HS args | _ => false end).
+Definition g_gate3 : genv F := mk no_flag no_len (fun id _ args =>
+  match id with
+  | 21 => run g_gate2 gen_Gate_is_tp_params gen_Gate_is_tp args
+  | 13 => run g_gate2 gen_Gate_is_cp_params gen_Gate_is_cp args
+  | _ => false end).
+Definition gate_eq (args : list (option F)) := run g_gate3 gen_Gate_is_eq_constraint_satisfied_params gen_Gate_is_eq_constraint_satisfied args.
+Definition gate_ineq (args : list (option F)) := run g_gate3 gen_Gate_is_ineq_constraint_satisfied_params gen_Gate_is_ineq_constraint_satisfied args.
+Definition gate_phys (args : list (option F)) := run (g_phys gate_eq gate_ineq) gen_QOperation_is_physical_params gen_QOperation_is_physical args.
+Lemma gate_eq_eq a : gate_eq [a] = gate_is_tp flag d B HS (resolve_atol st a).
+Proof. rewrite <- fn_is_tp_eq. destruct a; reflexivity. Qed.
+Lemma gate_ineq_eq a : gate_ineq [a] = gate_is_cp d B HS (resolve_atol st a).
+Proof. rewrite <- fn_is_cp_eq. destruct a; reflexivity. Qed.
+Theorem C01_gen_gate_is_physical a b : gate_phys [a; b] = gate_is_physical st flag d B HS a b.
+Proof. unfold gate_phys, gate_is_physical. now rewrite gen_is_physical_eq, gate_eq_eq, gate_ineq_eq. Qed.
+Lemma gate_phys_nil : gate_phys [] = gate_phys [None; None].
+Proof. reflexivity. Qed.
+Theorem C01_gen_gate_ctor required :
+  raises (call (g_ctor (fun _ => required) gate_phys) gen_Gate_init_guards_params gen_Gate_init_guards 0 [])
+  = gate_ctor_raises st flag d B HS required.
+Proof. unfold gate_ctor_raises, ctor_raises. rewrite <- (C01_gen_gate_is_physical None None), <- gate_phys_nil. guard_tac required (gate_phys []). Qed.
+
+(* ---------------------------------------------------------------- MProcess (m outcomes) *)
+Variables (m : nat) (hss : nat -> rmat F).
+Definition g_mp1 : genv F := mk no_flag (fun _ => m) (fun id j args =>
+  match id with
+  | 23 => fn_is_tp (mprocess_sum_hs m hss) args
+  | 4 => fn_is_cp (hss j) args
+  | _ => false end).
+Definition g_mp2 : genv F := mk no_flag no_len (fun id _ args =>
+  match id with
+  | 20 => run g_mp1 gen_MProcess_is_sum_tp_params gen_MProcess_is_sum_tp args
+  | 14 => run g_mp1 gen_MProcess_is_cp_params gen_MProcess_is_cp args
+  | _ => false end).
+Definition mp_eq (args : list (option F)) := run g_mp2 gen_MProcess_is_eq_constraint_satisfied_params gen_MProcess_is_eq_constraint_satisfied args.
+Definition mp_ineq (args : list (option F)) := run g_mp2 gen_MProcess_is_ineq_constraint_satisfied_params gen_MProcess_is_ineq_constraint_satisfied args.
+Definition mp_phys (args : list (option F)) := run (g_phys mp_eq mp_ineq) gen_QOperation_is_physical_params gen_QOperation_is_physical args.
+Lemma mp_eq_eq a : mp_eq [a] = mprocess_is_sum_tp flag d B m hss (resolve_atol st a).
+Proof. unfold mprocess_is_sum_tp. rewrite <- fn_is_tp_eq. destruct a; reflexivity. Qed.
+Lemma mp_ineq_eq a : mp_ineq [a] = mprocess_is_cp d B m hss (resolve_atol st a).
+Proof. unfold mprocess_is_cp.
+  assert (E : forall a : option F, run g_mp1 gen_MProcess_is_cp_params gen_MProcess_is_cp [a]
+                                   = allb m (fun x => gate_is_cp d B (hss x) (resolve_atol st a))).
+  { intros a0. unfold run, call. cbn [bind gen_MProcess_is_cp gen_MProcess_is_cp_params eval]. cbn [g_len g_mp1 mk].
+    rewrite (scan_allb _ (fun j => gate_is_cp d B (hss j) (resolve_atol st a0)) m).
+    - destruct (allb m _); reflexivity.
+    - intros j. cbv [eval eval_b g_prim g_mp1 mk map eval_tol upd bind String.eqb Ascii.eqb Bool.eqb].
+      rewrite (fn_is_cp_eq (hss j) a0). destruct (gate_is_cp d B (hss j) (resolve_atol st a0)); reflexivity. }
+  rewrite <- E. destruct a; reflexivity. Qed.
+Theorem C01_gen_mprocess_is_physical a b : mp_phys [a; b] = mprocess_is_physical st flag d B m hss a b.
+Proof. unfold mp_phys, mprocess_is_physical. now rewrite gen_is_physical_eq, mp_eq_eq, mp_ineq_eq. Qed.
+Lemma mp_phys_nil : mp_phys [] = mp_phys [None; None].
+Proof. reflexivity. Qed.
+(* the constructor: basis-flag guard, then the physicality guard *)
+Theorem C01_gen_mprocess_ctor required :
+  raises (call (g_ctor (fun s => if String.eqb s flag_name then flag else required) mp_phys)
+               gen_MProcess_init_guards_params gen_MProcess_init_guards 0 [])
+  = mprocess_ctor_raises st flag d B m hss required.
+Proof. unfold mprocess_ctor_raises, ctor_raises. rewrite <- (C01_gen_mprocess_is_physical None None), <- mp_phys_nil.
+  cbv [raises call bind eval eval_b g_ctor mk g_flag g_prim map gen_MProcess_init_guards flag_name String.eqb Ascii.eqb Bool.eqb].
+  generalize (mp_phys []); intros q. destruct flag, required, q; reflexivity. Qed.
+End Gate.
 End Tie.
+
+Print Assumptions C01_gen_state_is_physical.
+Print Assumptions C01_gen_state_subverdicts.
+Print Assumptions C01_gen_state_ctor.
+Print Assumptions C01_gen_povm_is_physical.
+Print Assumptions C01_gen_povm_ctor.
+Print Assumptions C01_gen_gate_is_physical.
+Print Assumptions C01_gen_gate_ctor.
+Print Assumptions C01_gen_mprocess_is_physical.
+Print Assumptions C01_gen_mprocess_ctor.
